@@ -19,7 +19,7 @@ RULE = (
     "operations every object's observables are recorded (register data and written text; file length, element data, "
     "written output). The same operations of EACH object alone are then replayed on fresh objects; the two "
     "observation sequences must be identical for every object (Driver C14 handler), and: files constructed without "
-    "arguments do not share their container, equal File.read('') and write '' . non-trivial = at least two objects "
+    "arguments do not share their container, equal File.read('') and write '' (to a buffer, to a fresh path and to a path holding another file's earlier output); the list a Line.read returns is not changed by a later read through the same Line (positional, delimited, binary). non-trivial = at least two objects "
     "with at least one operation each; distinct by full case."
 )
 ASSUMPTIONS = [
